@@ -156,6 +156,18 @@ fn scenario(cfg: &RunCfg, saturate: bool) -> Outcome {
         eng.add_client(cl);
         all_reqs.push(reqs);
     }
+    // a client that connects and resets at once - with the slots taken it is reset while it
+    // still waits in the listen backlog, and is accepted (as a dead connection) later
+    if gen::ratio(1, 4) {
+        let mut ops = vec![Op::Connect];
+        if gen::ratio(1, 2) {
+            ops.push(Op::Pause(gen::below(20)));
+        }
+        ops.push(Op::Rst);
+        eng.add_client(Client::new(ops, Frag::Whole));
+        all_reqs.push(Vec::new());
+        gen::count("fault.client_reset_in_backlog_or_early");
+    }
     // transient accept failures before / around the revocation: the loop must back off and go
     // on (never stop by itself), and the revocation must still be noticed
     if gen::ratio(1, 4) {
@@ -425,13 +437,13 @@ pub fn spec() -> PropertySpec {
     PropertySpec {
         id: "C13",
         level: "exploration",
-        rule: "Each run: the real server with a revocable permit and max_conns 1-3; 0..max_conns+1 simulated clients in mixed phases (never connected, idle keep-alive, head or body partially sent, handler running, response being read slowly) that never close by themselves; the revocation is one more scheduler action whose earliest step is drawn from the tape, so it lands at every await point of the accept loop and connection tasks; connects after the stopped signal; in a quarter of the runs 1-3 transient accept failures (EMFILE, ECONNABORTED, ENFILE, ENOBUFS, ENOMEM, EPROTO, ENETDOWN, EHOSTUNREACH, ...) armed from the start - the loop must back off and carry on, never stop by itself; a stage in which every accept fails with EMFILE from some step on (the loop backs off 500 ms of virtual time per attempt) and the revocation must still stop the server within 10 virtual seconds. Verdicts by quiescence (nothing runnable, nothing in flight, no timer), never by timeout. Non-trivial = at least one client; distinct = distinct schedule hash.",
+        rule: "Each run: the real server with a revocable permit and max_conns 1-3; 0..max_conns+1 simulated clients in mixed phases (never connected, idle keep-alive, head or body partially sent, handler running, response being read slowly) that never close by themselves; the revocation is one more scheduler action whose earliest step is drawn from the tape, so it lands at every await point of the accept loop and connection tasks; connects after the stopped signal; in a quarter of the runs one more client that connects and resets at once (reset while waiting in the backlog when the slots are taken); in a quarter of the runs 1-3 transient accept failures (EMFILE, ECONNABORTED, ENFILE, ENOBUFS, ENOMEM, EPROTO, ENETDOWN, EHOSTUNREACH, ...) armed from the start - the loop must back off and carry on, never stop by itself; a stage in which every accept fails with EMFILE from some step on (the loop backs off 500 ms of virtual time per attempt) and the revocation must still stop the server within 10 virtual seconds. A request counts as in flight from the first call of its handler (for an upload: the call that asks for the body) and must then receive its complete response. Verdicts by quiescence (nothing runnable, nothing in flight, no timer), never by timeout. Non-trivial = at least one client; distinct = distinct schedule hash.",
         scenarios: vec![
             Scenario { name: "c13.mixed", property: "C13", func: mixed, runs_quick: 400_000, runs_thorough: 10_000_000, doc: "mixed phases" },
             Scenario { name: "c13.accept_failing", property: "C13", func: accept_failing, runs_quick: 60_000, runs_thorough: 1_500_000, doc: "revocation while every accept fails with EMFILE (virtual 500 ms back-off)" },
             Scenario { name: "c13.saturated", property: "C13", func: saturated, runs_quick: 200_000, runs_thorough: 5_000_000, doc: "at least max_conns clients that stay connected: every slot is held when the permit is revoked" },
         ],
-        required_probes: vec!["probe.revoked", "probe.all_slots_held_at_quiescence", "probe.connect_after_stopped", "probe.request_served_after_revocation", "probe.revoked_during_accept_failures", "timer.sleep_for", "fault.accept_other_errno"],
+        required_probes: vec!["probe.revoked", "probe.all_slots_held_at_quiescence", "probe.connect_after_stopped", "probe.request_served_after_revocation", "probe.revoked_during_accept_failures", "timer.sleep_for", "fault.accept_other_errno", "fault.client_reset_in_backlog_or_early"],
         components: components_server(),
         assumptions: vec![
             "bounded time is judged as 'before quiescence', i.e. without any further external event",
